@@ -4,6 +4,19 @@ From Coq Require Import List Arith Bool Lia.
 From SV Require Import Model.Snap.
 Import ListNotations.
 
+(* the op-level functions get the caller's labels normalised ([norm l], what metadata keeps) and, for Prepare, also
+   as passed; inside the proofs the normalised map is just another label map: [nrm] names it [l] again and calls
+   the caller's map [lm] *)
+Ltac nrm :=
+  try match goal with
+      | |- context [norm ?x] =>
+          let ln := fresh "ln" in let Hn := fresh "Hn" in
+          remember (norm x) as ln eqn:Hn in *; clear Hn; rename x into lm; rename ln into x
+      | H : context [norm ?x] |- _ =>
+          let ln := fresh "ln" in let Hn := fresh "Hn" in
+          remember (norm x) as ln eqn:Hn in *; clear Hn; rename x into lm; rename ln into x
+      end.
+
 (* ---------- field projections of the setters ---------- *)
 Ltac unf_set := unfold set_meta, set_seq, set_dirs, set_tmpc, set_mounts, set_closed, emit; simpl.
 
